@@ -1268,6 +1268,10 @@ class Store:
         target_node = process_store.outer.get_path(target_topology)
         target = target_node.add_node(source_path, source_node)
         target_path = target.path_for() + source_path
+        # give the moved node the variables declared for the children
+        # of its new parent, as for added and generated nodes
+        target._apply_subschema_path(source_path)
+        target.get_path(source_path).apply_defaults()
 
         # find the paths to all the processes
         source_process_paths = source_node.depth(
